@@ -487,7 +487,7 @@ func (v *LogScopeVariables) Add(s context.Scope, name string, val value.Value) e
 		return errors.WithStack(err)
 	}
 
-	v.ctx.Response.Header.Add(match[1], val.String())
+	addResponseHeaderValue(v.ctx.Response, match[1], val)
 	return nil
 }
 
